@@ -141,7 +141,7 @@ def init_image(ctx):
 
 def snapshot(ctx):
     return dict(layouts=current_layouts(ctx.facts), consts=current_consts(ctx.facts), recipes=current_recipes(ctx), init_image=init_image(ctx),
-                open_refusals=count_open_refusals(ctx))
+                open_refusals=count_open_refusals(ctx), element_extents=element_extents(ctx))
 
 
 def table_rules(ctx):
@@ -495,6 +495,76 @@ def pagesize_refusal(ctx, rule='C15.pagesize-refusal'):
     return res
 
 
+def element_extents(ctx):
+    """{accessor: sorted leaves of the sum that bounds the bytes an element accessor hands out}, e.g. LeafElement::value -> [key_size, pos, value_size]; anything that is
+    not a plain sum of the element's own fields is rendered as text (and so differs from every pinned entry)"""
+    F = ctx.facts
+    out = {}
+    for f in F.fns:
+        if not (f.self_adt and last_seg(f.self_adt) in ('LeafElement', 'BranchElement')) or f.kind == 'Closure' or f.trait:
+            continue
+        if not f.locals[0]['ty'].startswith('&[u8]'):
+            continue
+        X = ctx.x(f)
+        du = ctx.du(X)
+        for bb in X.reachable_blocks():
+            t = X.term(bb)
+            c = callee_of(t) if t['k'] == 'call' else None
+            if c and last_seg(strip_generics(c['path'])) in ('from_raw_parts', 'from_raw_parts_mut') and len(t['args']) == 2:
+                e = du.sym(t['args'][1])
+                leaves, pure = [], True
+                todo = [e]
+                # `from_raw_parts(start.add(pos), len)` ends where `from_raw_parts(start, pos + len)` ends: offsets added to the base pointer count towards the extent
+                ptr = du.sym(t['args'][0])
+                for _ in range(8):
+                    if ptr[0] == 'call' and last_seg(strip_generics(ptr[1])) in ('add', 'byte_add', 'offset', 'wrapping_add') and len(ptr[2]) == 2:
+                        todo.append(ptr[2][1])
+                        ptr = ptr[2][0]
+                    elif ptr[0] == 'call' and len(ptr[2]) == 1 and last_seg(strip_generics(ptr[1])) in ('cast', 'cast_const', 'cast_mut', 'from_ref', 'from_mut', 'as_ptr'):
+                        ptr = ptr[2][0]
+                    else:
+                        break
+                while todo:
+                    x = todo.pop()
+                    if x[0] == 'bin' and x[1] in ('Add', 'AddWithOverflow', 'AddUnchecked'):
+                        todo += [x[2], x[3]]
+                    elif x[0] == 'field' and x[1] == ('arg', 1) and len(x[2]) == 1:
+                        leaves.append(x[2][0])
+                    else:
+                        pure = False
+                out['%s::%s' % (last_seg(f.self_adt), f.name)] = sorted(leaves) if pure else ['not a sum of fields: ' + str(e)[:160]]
+    return out
+
+
+def element_placement(ctx, rule='C15.element-placement'):
+    """where an element's key and value bytes lie relative to the element header: the extent each accessor hands out is the pinned sum of the element's own fields
+    (key: pos + key_size; value: pos + key_size + value_size).  Writer, reader and size accounting of the crate can agree on any other placement (8-byte alignment of values ...)
+    and every test that writes its own files passes; files of the pinned release are then read shifted"""
+    res = []
+    if not os.path.exists(PINNED):
+        return [unresolved(rule, 'format_pinned.json')]
+    pin = json.load(open(PINNED)).get('element_extents')
+    if pin is None:
+        return [unresolved(rule, 'element_extents in format_pinned.json')]
+    cur = element_extents(ctx)
+    f = floor(rule, 'element accessors handing out bytes', len(cur), 3)
+    if f:
+        res.append(f)
+    for k in sorted(pin):
+        if k not in cur:
+            continue        # an accessor that no longer exists reads nothing wrongly (the readers that replace it are listed under their own names)
+        if cur[k] != pin[k]:
+            res.append(bad(rule, '%s | extent differs from the pinned format' % k,
+                           'the bytes handed out by %s extend to %s; in the pinned format they extend to the sum of %s: keys / values of files written by the pinned release are read '
+                           'at the wrong offset' % (k, ' + '.join(cur[k]), ' + '.join(pin[k]))))
+        else:
+            res.append(ok(rule, '%s hands out bytes up to %s as pinned' % (k, ' + '.join(cur[k])), sites=1))
+    for k in sorted(set(cur) - set(pin)):
+        if cur[k] and cur[k][0].startswith('not a sum'):
+            res.append(bad(rule, '%s | extent is not a sum of element fields' % k, 'the new accessor %s computes its extent as %s' % (k, cur[k][0])))
+    return res
+
+
 def open_refusals(ctx, rule='C15.open-refusals'):
     """the conditions on which opening a file is refused are those of the pinned release: counted over everything reachable from open (helpers included, wherever they are
     moved), the explicit refusal sites -- `panic!` / `assert!` outside debug assertions, and constructions of a non-I/O value of the crate's error type -- do not grow.  A new
@@ -567,6 +637,7 @@ def run(ctx, tier):
     results = []
     results += table_rules(ctx)
     results += payload_origin(ctx)
+    results += element_placement(ctx)
     results += legacy_fallback(ctx)
     results += header_image(ctx)
     results += pagesize_refusal(ctx)
@@ -592,5 +663,5 @@ def run(ctx, tier):
             'structs, the evaluated format constants, the ordered checksum recipes (hasher type, field order, big-endian encoding) of the current and the legacy header, and the '
             'constants of the creation image all equal format_pinned.json (taken from the pinned release); header selection tries the current format first and still reaches the '
             'legacy validation, whose conversion copies every field from its namesake and re-seals; the commit writes every header field from its namesake; a header is only used '
-            'behind a page-size comparison that refuses a mismatch, and opening an existing file is write-free (so the refusal leaves the file unmodified); element serialiser and readers agree on the fields; no mask / shift arithmetic on the page size (files at non-power-of-two page sizes such as 5000 are supported). (payload-origin) every payload accessor of the page header starts at the address of Page.ptr; (open-refusals) explicit refusal sites on the open path do not outnumber the pinned ones; (snapshot-source) each transaction takes its header through the selection function. NOT decided: that a file opens with identical logical contents.'),
+            'behind a page-size comparison that refuses a mismatch, and opening an existing file is write-free (so the refusal leaves the file unmodified); element serialiser and readers agree on the fields; no mask / shift arithmetic on the page size (files at non-power-of-two page sizes such as 5000 are supported). (payload-origin) every payload accessor of the page header starts at the address of Page.ptr; (open-refusals) explicit refusal sites on the open path do not outnumber the pinned ones; (snapshot-source) each transaction takes its header through the selection function. (element-placement) element accessors hand out the pinned extents. NOT decided: that a file opens with identical logical contents.'),
         assumptions=['format_pinned.json is the format of the pinned release (generated from it once and cross-checked with layout_of)'])
